@@ -1,7 +1,9 @@
 /* unit "anyid" */
 typedef struct Stor { int v; } Stor;                    /* a value-storing Storage that supports == and < */
+typedef struct StorI { int v; } StorI;                  /* a value-storing Storage whose operator< returns int */
 typedef struct EmptyStorage { int unused; } EmptyStorage;  /* EmptyAnyStorage: supports neither */
 #define GHOST_FIELDS_MakeHash int unused;
 #define GHOST_FIELDS_HashE int unused;
 #define GHOST_FIELDS_HashS int unused;
+#define GHOST_FIELDS_HashI int unused;
 #define MakeHash_DEFAULT() ((MakeHash){0})
